@@ -154,7 +154,7 @@ func (s *SrcSys) record(idx, nonce int) opencdc.Record {
 	return opencdc.Record{
 		Position:  append(opencdc.Position(nil), s.recs[idx].pos...),
 		Operation: opencdc.OperationCreate,
-		Metadata:  opencdc.Metadata{"sim.src": s.cfg.ID},
+		Metadata:  opencdc.Metadata{"sim.src": s.cfg.ID, "sim.c0": condBit(s.w.cfg.Seed, s.cfg.ID, idx, 0), "sim.c1": condBit(s.w.cfg.Seed, s.cfg.ID, idx, 1), "sim.c2": condBit(s.w.cfg.Seed, s.cfg.ID, idx, 2)},
 		Key:       opencdc.RawData(id.marker()),
 		Payload:   opencdc.Change{After: opencdc.RawData("payload " + id.marker())},
 	}
@@ -373,6 +373,15 @@ func (s *simSrcStream) Recv() (pconnector.SourceRunResponse, error) {
 		max = sys.cfg.MaxBatch
 	}
 	n := 1 + d.arg%max
+	hostileShape := ""
+	if sys.cfg.HostilePct > 0 && (d.arg>>4)%100 < sys.cfg.HostilePct {
+		hostileShape = []string{"dup-position", "empty-position", "empty-batch"}[(d.arg>>11)%3]
+		w.probe("hostile-src-" + hostileShape)
+	}
+	if hostileShape == "empty-batch" {
+		w.log(Event{Kind: "SRC_HOSTILE", Ent: sys.cfg.ID, Inc: s.p.inc, Sess: sess.n, Note: hostileShape})
+		return pconnector.SourceRunResponse{Records: []opencdc.Record{}}, nil
+	}
 	recs := make([]opencdc.Record, 0, n)
 	ids := make([]RecID, 0, n)
 	pos := make([]string, 0, n)
@@ -385,7 +394,17 @@ func (s *simSrcStream) Recv() (pconnector.SourceRunResponse, error) {
 		sess.next++
 		sys.emitted++
 	}
-	w.log(Event{Kind: "SRC_EMIT", Ent: sys.cfg.ID, Inc: s.p.inc, Sess: sess.n, IDs: ids, Pos: pos})
+	switch hostileShape {
+	case "dup-position":
+		// the plugin re-sends the first record of the batch (same position, same content)
+		recs = append(recs, recs[0].Clone())
+		ids = append(ids, ids[0])
+		pos = append(pos, pos[0])
+		sess.emitted = append(sess.emitted, ids[0].Idx)
+	case "empty-position":
+		recs[len(recs)-1].Position = nil
+	}
+	w.log(Event{Kind: "SRC_EMIT", Ent: sys.cfg.ID, Inc: s.p.inc, Sess: sess.n, IDs: ids, Pos: pos, Note: hostileShape})
 	return pconnector.SourceRunResponse{Records: recs}, nil
 }
 
@@ -661,4 +680,35 @@ func (s *simDstStream) Recv() (pconnector.DestinationRunResponse, error) {
 		w.log(Event{Kind: kind, Ent: sys.cfg.ID, Inc: s.p.inc, Sess: sess.n, IDs: []RecID{pw.id}, Pos: []string{posHex(pw.pos)}, OK: errText == "", Err: errText})
 	}
 	return pconnector.DestinationRunResponse{Acks: acks}, nil
+}
+
+// condBit is the value of condition attribute k of a source record ("1" or "0").
+func condBit(seed int64, src string, idx, k int) string {
+	h := uint64(seed)*0x9e3779b97f4a7c15 ^ uint64(idx+1)*0xbf58476d1ce4e5b9 ^ uint64(k+1)*0x94d049bb133111eb
+	for _, c := range []byte(src) {
+		h = (h ^ uint64(c)) * 0x100000001b3
+	}
+	h ^= h >> 29
+	if h%3 == 0 {
+		return "0"
+	}
+	return "1"
+}
+
+// condTemplate is the condition string for attribute k ("" = unconditional).
+func condTemplate(k int) string {
+	return fmt.Sprintf(`{{ eq (index .Metadata "sim.c%d") "1" }}`, k)
+}
+
+// condHolds evaluates a condition produced by condTemplate for a record origin.
+func condHolds(seed int64, cond string, src string, idx int) bool {
+	if cond == "" {
+		return true
+	}
+	for k := 0; k < 3; k++ {
+		if cond == condTemplate(k) {
+			return condBit(seed, src, idx, k) == "1"
+		}
+	}
+	return true
 }
